@@ -479,3 +479,66 @@ Example C01_target_routes_by_decoded_path_nonvacuous :
   target_ok (bs "/%E3%83%89%2fx?q"%string) = true /\
   spells (upto_q (bs "/%E3%83%89%2fx?q"%string)) [47; 227; 131; 137; 47; 120].
 Proof. split; [vm_compute; reflexivity|apply unescape_spells; vm_compute; reflexivity]. Qed.
+
+(* ===================== host folding as Go does it (non-ASCII, invalid UTF-8) ================== *)
+(* [tserve_u] is serveHTTP/Insert with strings.ToLower modelled as Go computes it on non-ASCII
+   text (UTF-8 decoding, ill-formed bytes -> U+FFFD, unicode.ToLower on the code points of the
+   modelled blocks). The outcome depends on the request host only through its folded form ... *)
+Theorem C01_route_depends_on_folded_host_only : forall sites xf hh hh' up proto,
+  lower_key (strip_port hh ++ up) = lower_key (strip_port hh' ++ up) ->
+  tserve_u sites xf hh up proto = tserve_u sites xf hh' up proto.
+Proof. exact route_u_fold_only. Qed.
+Print Assumptions C01_route_depends_on_folded_host_only.
+Example C01_route_depends_on_folded_host_only_nonvacuous :
+  (* "CAFÉ.com:80" vs "café.com"; KELVIN SIGN "K.com" vs "k.com" *)
+  lower_key (strip_port (bs "CAF"%string ++ [195;137] ++ bs ".com:80"%string) ++ [SLASH]) =
+  lower_key (strip_port (bs "caf"%string ++ [195;169] ++ bs ".com"%string) ++ [SLASH]) /\
+  lower_key (strip_port ([226;132;170] ++ bs ".com"%string) ++ [SLASH]) = lower_key (strip_port (bs "k.com"%string) ++ [SLASH]) /\
+  tserve_u [(bs "k.com"%string, 5)] [] ([226;132;170] ++ bs ".com"%string) [SLASH] 1 = Site 5 [SLASH].
+Proof. vm_compute. repeat split; reflexivity. Qed.
+
+(* ... and on the declared addresses only through their folded forms *)
+Theorem C01_route_depends_on_folded_addresses_only : forall sites sites' xf hh up proto,
+  map (fun s => (lower_key (fst s), snd s)) sites = map (fun s => (lower_key (fst s), snd s)) sites' ->
+  tserve_u sites xf hh up proto = tserve_u sites' xf hh up proto.
+Proof. exact route_u_declared_fold_only. Qed.
+Print Assumptions C01_route_depends_on_folded_addresses_only.
+Example C01_route_depends_on_folded_addresses_only_nonvacuous :
+  map (fun s => (lower_key (fst s), snd s)) [(bs "CAF"%string ++ [195;137] ++ bs ".com/X"%string, 1)] =
+  map (fun s => (lower_key (fst s), snd s)) [(bs "caf"%string ++ [195;169] ++ bs ".com/X"%string, 1)].
+Proof. vm_compute. reflexivity. Qed.
+
+(* on ASCII text Go's folding is the A-Z folding of the rest of the model *)
+Theorem C01_go_lower_ascii : forall s, forallb (fun c => c <? 128) s = true -> go_lower s = to_lower s.
+Proof. exact go_lower_ascii. Qed.
+Print Assumptions C01_go_lower_ascii.
+Example C01_go_lower_ascii_nonvacuous : forallb (fun c => c <? 128) (bs "B.a.Com"%string) = true.
+Proof. vm_compute. reflexivity. Qed.
+
+(* "host matching ignores letter case" and nothing else is FALSE of the code on ill-formed text:
+   the declared host a<FF>.com answers a request for a<FE>.com — both ill-formed bytes fold to
+   U+FFFD — although the two names differ in a byte that is no letter (A-Z folding keeps them
+   apart) *)
+Theorem C01_host_match_only_case_insensitive_refuted :
+  exists sites hh up,
+    sites = [([97; 255; 46; 99; 111; 109], 1)] /\ hh = [97; 254; 46; 99; 111; 109] /\
+    to_lower hh <> to_lower [97; 255; 46; 99; 111; 109] /\
+    tserve_u sites [] hh up 1 = Site 1 [SLASH].
+Proof. exact invalid_utf8_hosts_collide. Qed.
+Print Assumptions C01_host_match_only_case_insensitive_refuted.
+
+(* the strongest true form: when the host texts (declared and requested) are ASCII — all that
+   net/http's Host-header check lets through — the Go folding is the A-Z folding, [tserve_u] IS
+   [tserve], and every theorem above (most specific pattern, case/port insensitivity, order
+   independence, spec) holds of it *)
+Theorem C01_host_match_only_case_insensitive_partial : forall sites xf hh up proto,
+  forallb (fun s => ascii_host (fst s)) sites = true -> ascii_host (strip_port hh ++ up) = true ->
+  tserve_u sites xf hh up proto = tserve (tbuild sites) xf hh up proto.
+Proof. exact route_u_ascii. Qed.
+Print Assumptions C01_host_match_only_case_insensitive_partial.
+Example C01_host_match_only_case_insensitive_partial_nonvacuous :
+  forallb (fun s => ascii_host (fst s)) [(bs "*.A.com:80/caf"%string ++ [195;169], 1)] = true /\
+  ascii_host (strip_port (bs "B.a.COM:8080"%string) ++ bs "/caf"%string ++ [195;169;47]) = true /\
+  tserve_u [(bs "*.A.com:80/caf"%string ++ [195;169], 1)] [] (bs "B.a.COM:8080"%string) (bs "/caf"%string ++ [195;169;47]) 1
+    = Site 1 (bs "/caf"%string ++ [195;169]).
+Proof. vm_compute. repeat split; reflexivity. Qed.
